@@ -6,13 +6,36 @@ import numpy as np
 import core
 import solvercorr as sc
 import solverslices
+import py2coq_plumbing
+import plumbcorr
 from props.c04 import TRUSTED as _T
 from props import c02
 
-THEOREMS = ["C11_shape_or_error", "C11_error_iff", "C11_truncate_reads", "C11_untruncate_writes",
-            "C11_untruncate_zero_elsewhere", "C11_no_collision", "C11_lowpass", "C11_clamp"]
-TRUSTED = _T + ["numpy.fft.fftshift/ifftshift are rolls by n//2 and -(n//2); np.pad/slicing semantics (Proofs/Plumbing.v models them as functions of an integer index)"]
+THEOREMS_MAIN = ["C11_shape_or_error", "C11_error_iff", "C11_truncate_reads", "C11_untruncate_writes",
+                 "C11_untruncate_zero_elsewhere", "C11_no_collision", "C11_lowpass", "C11_clamp"]
+# Properties/C11Array.v: the statement-by-statement array model of the plumbing (Model/SolverArray.v) refines the
+# frequency-set model Model/Solver.v cell by cell (Proofs/ArrayRefine.v)
+THEOREMS_ARRAY = ["C11_array_refines_spec", "C11_array_error_iff", "C11_array_source_spectrum", "C11_array_scatter",
+                  "C11_array_back_pipe", "C11_array_untruncate_sum", "C11_array_slices_in_range",
+                  "C11_array_flux_sum", "C11_array_conc_sum", "C11_array_footprint_mass", "C11_array_lowpass",
+                  "C11_array_nonvacuous"]
+THEOREMS = THEOREMS_MAIN + THEOREMS_ARRAY
+TRUSTED = _T + [
+    "numpy.fft.fftshift/ifftshift are rolls by n//2 and -(n//2); np.pad/slicing semantics (Proofs/Plumbing.v models them as functions of an integer index)",
+    "numpy semantics of the array calls as Model/SolverArray.v states them: np.pad(mode='constant', 0.0) embeds the block and writes zeros elsewhere; "
+    "x[lo:hi] for 0 <= lo <= hi <= n (C11_array_slices_in_range proves the bounds are in range) reads x[lo + r]; fftshift/ifftshift(axes) roll the last two axes; "
+    "fft2/ifft2 (pyFFTW through bldfm.fft_manager) are the definitional 2-D DFT over the last two axes with norm='forward' scaling the forward and "
+    "norm='backward' the inverse transform by 1/(rows*cols); np.meshgrid default indexing 'xy'; X[msk] lists the selected entries in C order and "
+    "A[:, msk] = V scatters column m of V to the m-th selected entry; .real; broadcasting of an (nly, nlx) array against (nlvls, nly, nlx). "
+    "The index part (pad, shifts, slices, mask gather/scatter, meshgrid, fftfreq) is compared exactly with numpy on every run over all parities "
+    "(harness/plumbcorr.py, integer arrays, carrier Z under vm_compute); the DFT and its norm conventions by the whole-solve float correspondence",
+    "harness/py2coq_plumbing.py (fail-closed `ast` data-flow translator of the plumbing statements of steady_state_transport_solver into the "
+    "description language of Model/SolverArray.v; coq/Bridge/PlumbingBridge.v re-proves on every run that the generated descriptions are "
+    "interpreted to exactly the pipelines of solve_array)",
+]
 ASSUMPTIONS = [
+    "C11_array_refines_spec: cell equality is stated for requests with both mode counts positive (modes=(0, n) makes the code raise IndexError at "
+    "tfftp[0, 0, 0] = p000; Model/Solver.v returns a zero field there) and for well-formed arguments (rectangular source, profiles as long as z)",
     "the clamp resets BOTH mode counts when either exceeds the padded size (as the code does); the property's sentence is read for the pair",
     "an odd mode request is rejected before the clamp, so 'more than it holds == exactly as many as it holds' is stated for even padded sizes",
 ]
@@ -53,8 +76,11 @@ def parity_class(c):
 
 
 def check(ctx):
-    core.check_properties_file(ctx, "Properties/C11.v", THEOREMS, core.AX_NONE)
+    core.check_properties_file(ctx, "Properties/C11.v", THEOREMS_MAIN, core.AX_NONE)
+    core.check_properties_file(ctx, "Properties/C11Array.v", THEOREMS_ARRAY, core.AX_NONE)
     solverslices.run(ctx)
+    # tie (B) for the array plumbing: statement sequence of the current source -> description -> bridge to solve_array
+    py2coq_plumbing.run(ctx)
     cases = gen(ctx)
     recs = sc.correspond(ctx, cases, "c11_", shard=5)
     sc.summarize(ctx, cases, recs,
@@ -66,6 +92,8 @@ def check(ctx):
         h[k] = h.get(k, 0) + 1
     ctx.cov.setdefault("histogram", {})["parity_class"] = h
     ctx.cov["exhaustive"] = bool(ctx.thorough)
+    # exact correspondence of the index semantics Model/SolverArray.v ascribes to numpy's pad / shifts / slices / mask / meshgrid / fftfreq
+    plumbcorr.run(ctx)
 
 
 def probe(S, case):
